@@ -2,7 +2,7 @@
 import datetime, json, os, re
 import numpy as np, pandas as pd
 from harness.enc import IdMap
-from harness.x_order import xtag as tag, xuntag as untag, beyond_double   # enc.tag / untag + numbers beyond 2**31 (OrderBig)
+from harness.x_order import xtag as tag, xuntag as untag   # enc.tag / untag + numbers beyond 2**31 (OrderBig)
 from pyg_base import cmp, sort, Cmp, dictable
 
 STRS = ["", "B", "a", "ab", "abc", "b", "ba", "j", "k", "xyz"]
@@ -43,27 +43,23 @@ def big_universe():
     ints = [BIG - 1, BIG, BIG + 1, BIG + 2, BIG + 3, 2 ** 54 + 2, -BIG, -BIG - 1, -BIG - 2, 10 ** 17, 10 ** 17 + 1, 2 ** 31, -2 ** 31,
             2 ** 63 - 1, 2 ** 63, 2 ** 64, 2 ** 64 + 1, 10 ** 30, 10 ** 30 + 1, int(DMAX), int(DMAX) + 1, -int(DMAX)]
     flts = [float(BIG - 1), float(BIG), float(BIG + 2), float(BIG + 4), -float(BIG), -float(BIG + 2), 1e17, 2.0 ** 31, 2.0 ** 63, 2.0 ** 64, 1e30,
-            DMAX, -DMAX, 5e-324, -5e-324, 2.2250738585072014e-308, 1e-300, 1e300, -1e300, 0.1, 1 / 3]
-    nps = [np.int64(BIG + 1), np.int64(-BIG - 1), np.uint64(2 ** 64 - 1), np.float64(float(BIG)), np.float32(2.0 ** 60), np.float32(1e38), np.float32(1e-45)]
+            DMAX, -DMAX, 5e-324, -5e-324, 2.2250738585072014e-308, 1e-300, 1e300, -1e300, 0.1, 1 / 3, 0.0, -0.0, 1e-17]
+    nps = [np.int64(BIG + 1), np.int64(-BIG - 1), np.uint64(2 ** 64 - 1), np.uint64(BIG + 1), np.float64(float(BIG)), np.float32(2.0 ** 60), np.float32(1e38), np.float32(1e-45),
+           np.uint8(1), np.uint16(2), np.uint32(0), np.uint64(1), np.int8(-1), np.int16(2)]       # small numpy ints of every signedness ride along
+    beyond = [10 ** 400, -10 ** 400, 2 ** 1024, 2 ** 1024 - 2 ** 970, -2 ** 1024, 10 ** 400 + 1]       # ints no double can hold
     co = [(BIG,), (BIG + 1,), (float(BIG),), [BIG + 1], [float(BIG)], {'k': BIG + 1}, {'k': float(BIG)}, {'k': BIG}, (BIG + 1, 1), (float(BIG), 2), (BIG, 2),
-          ((BIG + 1,), None), (1e300, 'a'), [5e-324], (-BIG - 1, 0), (-float(BIG), 0)]
-    return ints + flts + nps + co
+          ((BIG + 1,), None), (1e300, 'a'), [5e-324], (-BIG - 1, 0), (-float(BIG), 0), (10 ** 400,), [2 ** 1024], {'k': 10 ** 400}, (10 ** 400 + 1, 1), (np.uint8(1),)]
+    return ints + flts + nps + beyond + co
 
 
-def beyond_universe():
-    """ints that no double can hold, with a few ordinary values around them (judged as a matrix of their own)"""
-    return [10 ** 400, -10 ** 400, 2 ** 1024, 2 ** 1024 - 2 ** 970, -2 ** 1024, 10 ** 400 + 1, (10 ** 400,), [2 ** 1024], {'k': 10 ** 400},
-            None, 1, 1.0, DMAX, int(DMAX), float('inf'), float('-inf'), float('nan'), 'a', (1,)]
-
-
-def matrix_obs(ctx, vals, mat=1):
+def matrix_obs(ctx, vals):
     ids = IdMap()
     tags = [tag(v, ids) for v in vals]
     M = [[safe_cmp(x, y) for y in vals] for x in vals]
-    path = os.path.join(ctx.tmp, 'cmp_matrix%d.json' % mat)
+    path = os.path.join(ctx.tmp, 'cmp_matrix.json')
     with open(path, 'w') as f:
         json.dump({'vals': tags, 'M': M}, f)
-    return path, tags, M, [{'kind': 'cmprow', 'i': i + 1, 'mat': mat} for i in range(len(vals))]
+    return path, tags, M, [{'kind': 'cmprow', 'i': i + 1} for i in range(len(vals))]
 
 
 def sort_obs(xs_tags, how):
@@ -159,7 +155,7 @@ def run(ctx):
                 'pairs of a sorted list). Non-trivial = input not already sorted; distinct by input.')
     ctx.mc('MC_Order', 'MC_Order_laws.cfg')
     ctx.mc('MC_Order', 'MC_Order_lists3.cfg')
-    ctx.mc('MC_Order', 'MC_Order_big3.cfg' if ctx.quick else 'MC_Order_big4.cfg')
+    ctx.mc('MC_Order', 'MC_Order_big2.cfg' if ctx.quick else 'MC_Order_big3.cfg')      # law rows are the same; sort laws on lists <= 2 / <= 3
     if not ctx.quick:
         ctx.mc('MC_Order', 'MC_Order_tuples3.cfg')
     obs = []
@@ -167,9 +163,6 @@ def run(ctx):
     vals = universe()
     mat_path, tags, M, rows = matrix_obs(ctx, vals)
     obs += rows
-    vals2 = beyond_universe()
-    mat2_path, tags2, M2, rows2 = matrix_obs(ctx, vals2, mat=2)
-    obs += rows2
     # --- S2C: lists and tables enumerated by TLC ---
     gens = ['MC_Order_gen_lists3.cfg', 'MC_Order_gen_tuples2.cfg', 'MC_Order_gen_tables2.cfg', 'MC_Order_gen_big3.cfg'] if ctx.quick else \
            ['MC_Order_gen_lists4.cfg', 'MC_Order_gen_tuples3.cfg', 'MC_Order_gen_tables3.cfg', 'MC_Order_gen_big4.cfg']
@@ -178,8 +171,8 @@ def run(ctx):
         cases = ctx.generate('MC_Order', g)
         if ctx.quick and len(cases) > 6000:
             cases = ctx.rng.sample(cases, 6000)
-        if not ctx.quick and len(cases) > 60000:
-            cases = ctx.rng.sample(cases, 60000)
+        if not ctx.quick and len(cases) > (30000 if 'big' in g else 60000):
+            cases = ctx.rng.sample(cases, 30000 if 'big' in g else 60000)
         for c in cases:
             if c['kind'] == 'sort':
                 for how in ('sort', 'Cmp'):
@@ -200,7 +193,7 @@ def run(ctx):
     pool = [["n", 0], ["i", 0], ["i", 1], ["i", 2], ["i", -3], ["f", [1, 1]], ["f", [5, 2]], ["f", [-1, 2]], ["nan", 1], ["nan", 2], ["nan", 3]] + \
            [["s", s] for s in STRS[:7]] + [["d", [730120, 0, 0]], ["d", [730120, 3600, 5]], ["d", [730000, 0, 0]]]
     bigpool = [tag(v) for v in [BIG - 1, BIG, BIG + 1, BIG + 2, BIG + 3, float(BIG), float(BIG + 2), -BIG, -BIG - 1, -float(BIG), 10 ** 17, 10 ** 17 + 1, 1e17,
-                                2 ** 64, 2 ** 64 + 1, 2.0 ** 64, 1e300, -1e300, 5e-324, 1e-300, 0.1, DMAX, int(DMAX) + 1, 2 ** 31]]
+                                2 ** 64, 2 ** 64 + 1, 2.0 ** 64, 1e300, -1e300, 5e-324, 1e-300, 0.1, DMAX, int(DMAX) + 1, 2 ** 31, 10 ** 400, 10 ** 400 + 1, -10 ** 400]]
     rng = ctx.rng
     n = 250 if ctx.quick else 4000
     for i in range(n):
@@ -231,9 +224,7 @@ def run(ctx):
         obs.append(dsortval_obs(rows, orders))
         ctx.note(('c2s', i))
     ctx.evals += len(obs) + len(vals) ** 2
-    bad = ctx.validate('Trace_Order', obs, env={'MAT_FILE': mat_path, 'MAT2_FILE': mat2_path})
-    registered = any(k.get('id') == BEYOND_ID for k in ctx.known)
-    beyond = []
+    bad = ctx.validate('Trace_Order', obs, env={'MAT_FILE': mat_path})
     for line, clause in bad:
         o = obs[line - 1]
         if o['kind'] == 'cmprow':
@@ -244,20 +235,10 @@ def run(ctx):
                 trip = [i, a, b]
             else:
                 trip = [a, b]
-            V, T, MM = (vals2, tags2, M2) if o.get('mat') == 2 else (vals, tags, M)
-            case = {'op': 'cmp', 'pattern': [shape(T[k - 1]) for k in trip], 'values': [repr(V[k - 1])[:60] for k in trip]}
-            detail = {'indices': trip, 'matrix': o.get('mat', 1), 'entries': [[MM[p - 1][q - 1] for q in trip] for p in trip]}
-            if name == 'cmp_raises' and any(beyond_double(V[k - 1]) for k in trip):
-                # GENUINE, reported: cmp raises OverflowError on an int no double can hold (float(int) in _sort.cmp).  Until the
-                # finding is triaged into known_findings.json (id BEYOND_ID) it is listed in the evidence and kept out of the verdict.
-                case['int_beyond_float_range'] = True
-                beyond.append(case)
-                if not registered:
-                    continue
-            ctx.violation(name, case, detail)
+            case = {'op': 'cmp', 'pattern': [shape(tags[k - 1]) for k in trip], 'values': [repr(vals[k - 1])[:60] for k in trip]}
+            ctx.violation(name, case, {'indices': trip, 'entries': [[M[p - 1][q - 1] for q in trip] for p in trip]})
         else:
             ctx.violation(clause, case_of(o), {k: o[k] for k in ('out', 'raised', 'adj', 'colcmp', 'again', 'after') if k in o})
-    ctx.extra['open_finding_%s_(cmp raises on ints no double can hold)' % BEYOND_ID] = {'rows': len(beyond), 'registered_as_known': registered, 'first': beyond[:2]}
     ctx.sample({'cmp_universe_size': len(vals), 'large_magnitude_values': len(big_universe()), 'first_values': [repr(v) for v in vals[:12]]})
     ctx.sample({'c2s_observation': obs[-2]})
     ctx.exhaustive = False
@@ -268,10 +249,7 @@ def run(ctx):
                         'with an int of that size cmp may tie numbers that differ (CoarseTie: the statement pins 0 only for equal numbers) but '
                         'never order them against the exact order; two floats follow the native order; transitivity decides which ties are lawful',
                         'dictable.sort may order rows by cmp or by cmp refined with the exact numeric order on CoarseTie pairs (Python\'s own order)',
-                        'ints no double can hold (|v| >= 2**1024) are judged in a matrix of their own and stay out of sort / dictable.sort inputs']
-
-
-BEYOND_ID = 'C07-cmp-int-beyond-float-range'
+                        ]
 
 
 def replay(ctx, body):
@@ -281,11 +259,9 @@ def replay(ctx, body):
     elif c['op'] == 'dictable.sort(**byval)': obs = [dsortval_obs(c['rows'], c['orders'])]
     else:
         vals = universe(); path, tags, M, rows = matrix_obs(ctx, vals); obs = rows
-        path2, tags2, M2, rows2 = matrix_obs(ctx, beyond_universe(), mat=2)
-        if c.get('int_beyond_float_range'): obs = rows2
-        bad = ctx.validate('Trace_Order', obs, env={'MAT_FILE': path, 'MAT2_FILE': path2})
+        bad = ctx.validate('Trace_Order', obs, env={'MAT_FILE': path})
         print('replay (whole cmp matrix):', 'REJECTED %s' % bad[:5] if bad else 'accepted'); return 1 if bad else 0
     path, tags, M, rows = matrix_obs(ctx, [None, 1])
-    bad = ctx.validate('Trace_Order', obs, env={'MAT_FILE': path, 'MAT2_FILE': path})
+    bad = ctx.validate('Trace_Order', obs, env={'MAT_FILE': path})
     print('replay:', 'REJECTED %s' % bad if bad else 'accepted')
     return 1 if bad else 0
